@@ -93,6 +93,9 @@ def main(chk):
     exhaust.run_sweeps(chk, w2c2, 'C02', [e for e in exhaust.sweep_ops() if e[1] in FLOAT_OPS], [(t, c, f, []) for t, c, f in builds],
                        slow_builds=(() if quick else ('gcc-O0', 'clang-O0')))
 
+    # the same opcodes on compile-time CONSTANT operands (what the C compiler folds), every non-trapping tuple of the tables
+    exhaust.run_constfold(chk, w2c2, 'C02', FLOAT_OPS, [(t, c, f, []) for t, c, f in builds], env.rng('c02-constfold'))
+
     prof = gen.Profile(nan_canon=True, w_trace=0.3, w_control=0.6)
     prof.ops = set(wasm.NUMERIC)
     nmods = 120 if quick else 1200
